@@ -175,7 +175,11 @@ def _parse_config_value(val: Any, field_type: Any, path: List[str]) -> Any:
 
     if (field_type is float) and isinstance(val, int):
         # Implicit conversion of integer value to floating point.
-        return float(val)
+        try:
+            return float(val)
+        except OverflowError:
+            # Integer is outside the floating point range; report it as a type mismatch below.
+            pass
 
     # Recognize "List" and "Dict" and map them to "list" and "dict".
     if field_type == List:
